@@ -163,6 +163,12 @@ def verify_contract(qn, timeout_ms, only_variant=None):
                 obs.append((ob, getattr(p, "param_terms", {}), getattr(p, "param_recipes", {})))
             for ob, params, recipes in obs:
                 if ob.kind == "unsupported":
+                    # a path that left the subset only matters if it can be taken at all (a specification expression may
+                    # have forked on a case the code's own path condition excludes)
+                    discharge(ob, timeout_ms)
+                    if ob.status == "proved":
+                        out["dead_unsupported_paths"] = out.get("dead_unsupported_paths", 0) + 1
+                        continue
                     out["obligations"].append({"name": ob.name, "kind": "unsupported", "status": "unknown", "solver_s": 0.0, "backend": None,
                                                "reason": "path leaves the verifier's subset: " + ob.info["why"], "info": ob.info, "model": None})
                     continue
@@ -361,7 +367,7 @@ def replay_objects(program, con, f, node, values):
     except Exception:
         pass
     # pre-state of what the contract lets the function modify (old["param.attr"]), and of the parameters themselves
-    old_state = {k: v for k, v in values.items()}
+    old_state = {k: (_copy.deepcopy(v) if k in con.modifies else v) for k, v in values.items()}
     for m in con.modifies:
         if "." in m and m.split(".", 1)[0] in values:
             try:
@@ -532,6 +538,16 @@ def _run_one(ip, path, con, f, node, variant, vi):
                 kwargs.update({k: o2 for k, v2 in kwargs.items() if v2 is o})
                 o = o2
             ip.modifies_ok.add(id(o))
+            if "." not in m:
+                # ... and so are the containers nested in an in-place container given as that parameter
+                def _nest(c):
+                    from .sym import LList as _LL, LDict as _LD
+                    kids = (c.items or []) if isinstance(c, _LL) else [v for _, v in c.pairs] if isinstance(c, _LD) else []
+                    for x in kids:
+                        if isinstance(x, (_LL, _LD)):
+                            ip.modifies_ok.add(id(x))
+                            _nest(x)
+                _nest(o)
             if "." in m and isinstance(o, Z):
                 ip.modifies_ok.add(("zattr", o.t.get_id(), m.split(".", 1)[1]))
     if con.requires is not None:
@@ -541,7 +557,14 @@ def _run_one(ip, path, con, f, node, variant, vi):
         if isinstance(v, _LL) and v.concrete:
             return _LL(list(v.items), fresh=False)        # the container may be updated in place: the pre-state is a copy
         return v
-    old = LDict([(C(k), v) for k, v in env.items()] +
+    def _deep(v):
+        from .sym import LList as _LL, LDict as _LD
+        if isinstance(v, _LL) and v.concrete:
+            return _LL([_deep(x) for x in v.items], fresh=False)
+        if isinstance(v, _LD):
+            return _LD([(k, _deep(x)) for k, x in v.pairs], fresh=False)
+        return v
+    old = LDict([(C(k), (_deep(v) if k in con.modifies else v)) for k, v in env.items()] +
                 [(C(m), _snap(env[m.split(".", 1)[0]].attrs[m.split(".", 1)[1]])) for m in con.modifies
                  if "." in m and isinstance(env.get(m.split(".", 1)[0]), SObj) and m.split(".", 1)[1] in env[m.split(".", 1)[0]].attrs])
     ip.entry_env = dict(env)
